@@ -53,6 +53,8 @@ class Contract:
         self.variant = variant
         self.key = qualname if variant is None else f"{qualname}#{variant}"
         self.inline_callees = set()
+        self.lemmas_ = []  # Clause(name, fn()): closed formulas proved once (no path condition)
+        self.callee_variants = {}  # qualname -> variant: the contract variant of a callee this body is verified against
         self.on_yield = None  # generator under contract: fn(a, value, st) records a yield in ghost state
         self.prune = True
         self.params = {}
@@ -90,6 +92,10 @@ class Contract:
         self.ensures_.append(Clause(name, fn, props or _props_of(name), internal))
         return self
 
+    def lemma(self, name, fn, props=None):
+        self.lemmas_.append(Clause(name, fn, props or _props_of(name), True))
+        return self
+
     def exsures(self, cls, name=None, fn=None, props=None, internal=False):
         lst = self.exsures_.setdefault(cls, [])
         if name is not None:
@@ -123,6 +129,8 @@ class Contract:
                 ps.update(c.props)
         for l in self.loops.values():
             ps.update(l.props)
+        for c in self.lemmas_:
+            ps.update(c.props)
         return ps
 
 
@@ -210,6 +218,7 @@ def collect_obligations(source, registry, models_cls, contract, prune=True):
     fr = source.funcref(contract.qualname)
     ex = make_executor(source, registry, models_cls, top=contract.qualname, prune=(prune and contract.prune))
     ex.models.inline_ok |= set(contract.inline_callees)
+    ex.models.callee_variants = dict(getattr(contract, "callee_variants", {}) or {})
     st = State()
     assumptions = []
     inputs = {}
@@ -298,6 +307,9 @@ def collect_obligations(source, registry, models_cls, contract, prune=True):
                 for cl in clauses:
                     cond = cl.fn(a, o.value, cx)
                     obs.append(Obligation(cl.name, contract.qualname, cl.props, list(o.st.pc), cond, inputs, "exsures"))
+    # path-independent lemmas (facts the clauses assume as instances): discharged once, with an empty path condition
+    for cl in getattr(contract, "lemmas_", []):
+        obs.append(Obligation(cl.name, contract.qualname, cl.props, [], cl.fn(), {}, "lemma"))
     for name, pc, cond, props in ex.side_obligations:
         obs.append(Obligation(name, contract.qualname, props or tuple(sorted(contract.all_props())), pc, cond, inputs, "side"))
     info["paths"] = len(outs)
